@@ -497,6 +497,94 @@ impl GdsImporter {
 //|         proof { assert(cells_imp(self.lib.cells@, vp_order@, old(self).cell_map)); }
 //@ end
 }
+
+// =====================================================================================================
+// C07 round trip, as lemmas over the two converters' contracts
+// =====================================================================================================
+/// one layer table used both ways: the numbers export_layerspec writes for (key, purpose) are the ones the importer files the key and purpose under
+pub open spec fn table_ok() -> bool {
+    forall|k: LayerKey, p: LayerPurpose| (#[trigger] nums_of(k, p)) is Some ==> nums_of(k, p)->0.layer == knum(k) && nums_of(k, p)->0.xtype == pnum(k, p)
+}
+/// the same geometry: a rectangle keeps its corners; a polygon keeps its points (or, when it is an axis-aligned 4-corner walk, comes back as the
+/// rectangle with corners at its points 0 and 2); a path keeps its points and width
+pub open spec fn shape_same(a: Shape, b: Shape) -> bool {
+    match a {
+        Shape::Rect(ra) => b is Rect && b->Rect_0.p0 == ra.p0 && b->Rect_0.p1 == ra.p1,
+        Shape::Polygon(pa) => (b is Polygon && b->Polygon_0.points@ =~= pa.points@)
+            || (b is Rect && pa.points@.len() == 4 && rect_walk(pa.points@) && b->Rect_0.p0 == pa.points@[0] && b->Rect_0.p1 == pa.points@[2]),
+        Shape::Path(pa) => b is Path && b->Path_0.points@ =~= pa.points@ && b->Path_0.width == pa.width,
+    }
+}
+pub proof fn lemma_same_pts_eq(g: Seq<gds21::GdsPoint>, a: Seq<Point>, b: Seq<Point>)
+    requires same_pts(g, a), same_pts(g, b),
+    ensures a =~= b,
+{
+    assert forall|i: int| 0 <= i < a.len() implies a[i] == b[i] by { assert(same_pt(g[i], a[i])); assert(same_pt(g[i], b[i])); }
+}
+/// THEOREM (C07, shapes): whatever export_shape wrote for element `e`, whatever the importer made of it is on the same layer number and data type
+/// and has the same geometry
+pub proof fn theorem_shape_roundtrip(e: Element, g: gds21::GdsElement, e2: Element)
+    requires table_ok(), nums_of(e.layer, e.purpose) is Some, shape_gds(e.inner, g, nums_of(e.layer, e.purpose)->0), geom_imp(e2, g),
+    ensures knum(e2.layer) == knum(e.layer), pnum(e2.layer, e2.purpose) == pnum(e.layer, e.purpose), shape_same(e.inner, e2.inner), e2.net is None,
+{
+    match (e.inner, g) {
+        (Shape::Rect(rc), gds21::GdsElement::GdsBoundary(b)) => { assert(rect_walk_g(b.xy@)); }
+        (Shape::Polygon(pg), gds21::GdsElement::GdsBoundary(b)) => {
+            let n = b.xy@.len() as int;
+            match e2.inner {
+                Shape::Polygon(p2) => { lemma_same_pts_eq(b.xy@.take(n - 1), pg.points@, p2.points@); }
+                Shape::Rect(r2) => {
+                    assert(n == 5); assert(pg.points@.len() == 4);
+                    assert forall|i: int| 0 <= i < 4 implies same_pt(b.xy@[i], #[trigger] pg.points@[i]) by { assert(b.xy@.take(4)[i] == b.xy@[i]); }
+                }
+                _ => {}
+            }
+        }
+        (Shape::Path(pa), gds21::GdsElement::GdsPath(b)) => {
+            match e2.inner { Shape::Path(p2) => { lemma_same_pts_eq(b.xy@, pa.points@, p2.points@); } _ => {} }
+        }
+        _ => {}
+    }
+}
+/// Path::contains answers true on every flush segment rectangle of a Manhattan path: its PROVED lower bound (unit raw_geom), restated for the
+/// function `path_has` that models it here
+#[verifier::external_body]
+pub proof fn axiom_path_has_flush(p: Path, q: Point)
+    requires p.points.len() >= 2, manhattan(p.points@), all_small(p.points@), small(q), p.width <= 0x2000_0000_0000_0000, path_flush(p.points@, (p.width / 2) as int, q, p.points.len() - 1),
+    ensures path_has(p, q),
+{}
+/// THEOREM (C07, nets): the label the exporter emits for a named shape is found again by the importer — it lies inside the re-imported shape, on its
+/// layer, and carries the net's name (which the importer lower-cases)
+pub proof fn theorem_label_found(e: Element, gs: Seq<gds21::GdsElement>, e2: Element)
+    requires table_ok(), elem_gds(gs, e), e.net is Some, geom_imp(e2, gs[0]), shape_pre(e.inner),
+        // (a polygon that is an axis-aligned 4-corner walk comes back as a rectangle: that case is left out here)
+        e.inner is Polygon ==> !(e.inner->Polygon_0.points@.len() == 4 && rect_walk(e.inner->Polygon_0.points@)),
+    ensures gs[1] is GdsTextElem, gs[1]->GdsTextElem_0.string@ == e.net->0@, lhit(e2, gs[1]->GdsTextElem_0),
+{
+    theorem_shape_roundtrip(e, gs[0], e2);
+    let t = gs[1]->GdsTextElem_0;
+    let q = choose|q: Point| same_pt(t.xy, q) && shape_holds(e.inner, q);
+    assert(tpt(t) == q);
+    match e.inner {
+        Shape::Rect(rc) => {}
+        Shape::Polygon(pg) => {
+            match e2.inner {
+                Shape::Polygon(p2) => { assert(p2.points@ == pg.points@); }
+                _ => {}
+            }
+        }
+        Shape::Path(pa) => { let p2 = e2.inner->Path_0; assert(p2.points@ == pa.points@ && p2.width == pa.width); assert(t.xy.x as isize == q.x && t.xy.y as isize == q.y); lemma_small_pt(t); axiom_path_has_flush(p2, q); }
+    }
+}
+/// THEOREM (C07, instances): whatever export_instance wrote, the importer's instance has the same location, reflection and angle, and its target
+/// is what the cell map answers for the exported cell's name
+pub proof fn theorem_inst_roundtrip(inst: Instance, g: gds21::GdsStructRef, i2: Instance, m: CellMap)
+    requires sref_gds(g, inst), sref_imp(i2, g, m),
+    ensures i2.loc == inst.loc, i2.reflect_vert == inst.reflect_vert, i2.angle == inst.angle, m.lookup(pointee(inst.cell).name@) == Some(i2.cell),
+{}
+proof fn canary_label_found(e: Element, gs: Seq<gds21::GdsElement>, e2: Element)
+    requires table_ok(), elem_gds(gs, e), e.net is Some, geom_imp(e2, gs[0]), shape_pre(e.inner), e.inner is Path,
+    ensures false {}
 proof fn canary_lib_imp(lib: Library, glib: gds21::GdsLibrary, m0: CellMap, m1: CellMap)
     requires lib_imp(lib, glib, m0, m1), forall|q: Seq<char>| #[trigger] m0.lookup(q) is None, glib.structs@.len() == 2, glib.structs@[1].elems@.len() == 1, glib.structs@[1].elems@[0] is GdsStructRef,
     ensures false {}
